@@ -361,27 +361,32 @@ func (g *cgen) loopVarCapture() *ConcProgram {
 	return &ConcProgram{Src: "package main\n\nimport (\n\t\"sync\"\n)\n\n" + b.String(), Independent: true, Features: feats, Threads: 2}
 }
 
-// goCallFrontier: `go f(args)` / `go x.m(args)` on named functions, whose operands read cells
+// goCallFrontier: `go f(args)` / `go x.m(args)` on named functions and `go func(n T){…}(args)`, whose operands read cells
 // that the parent overwrites right after the go statement. Go evaluates the operands in the
 // spawning goroutine, so the result does not depend on the schedule.
 func (g *cgen) goCallFrontier() *ConcProgram {
 	g.feat("go-call-with-arguments")
 	var b strings.Builder
 	w := func(format string, a ...any) { fmt.Fprintf(&b, format, a...) }
-	method := g.chance("gomethod", 40)
+	form := g.pick("goform", 3) // named function, method, function literal with parameters (seeded change C03-7)
 	w("type Rec struct {\n\tv uint64\n}\n\n")
 	w("func record(x uint64, out *uint64, wg *sync.WaitGroup) {\n\t*out = x\n\twg.Done()\n}\n\n")
 	w("func (r *Rec) put(x uint64, wg *sync.WaitGroup) {\n\tr.v = x\n\twg.Done()\n}\n\n")
 	w("func entry0() (uint64, uint64) {\n")
-	w("\tvar x uint64 = %d\n\tp := new(uint64)\n\t*p = %d\n\tout := new(uint64)\n\tr := &Rec{}\n\twg := new(sync.WaitGroup)\n\twg.Add(1)\n", g.lit("gcx")%100, g.lit("gcp")%100)
-	arg := []string{"x", "*p", "x + *p"}[g.pick("gcarg", 3)]
-	if method {
+	w("\tvar x uint64 = %d\n\tp := new(uint64)\n\t*p = %d\n\tout := new(uint64)\n\tr := &Rec{}\n\tq := &Rec{v: %d}\n\tsl := make([]uint64, 2)\n\tsl[1] = %d\n\twg := new(sync.WaitGroup)\n\twg.Add(1)\n",
+		g.lit("gcx")%100, g.lit("gcp")%100, g.lit("gcq")%100, g.lit("gcs")%100)
+	arg := []string{"x", "*p", "x + *p", "q.v", "sl[1]"}[g.pick("gcarg", 5)]
+	switch form {
+	case 1:
 		g.feat("go-method-call")
 		w("\tgo r.put(%s, wg)\n", arg)
-	} else {
+	case 2:
+		g.feat("go-literal-with-parameters")
+		w("\tgo func(n uint64) {\n\t\t*out = n\n\t\twg.Done()\n\t}(%s)\n", arg)
+	default:
 		w("\tgo record(%s, out, wg)\n", arg)
 	}
-	w("\tx = %d\n\t*p = %d\n", 200+g.pick("gcx2", 50), 300+g.pick("gcp2", 50))
+	w("\tx = %d\n\t*p = %d\n\tq.v = %d\n\tsl[1] = %d\n", 200+g.pick("gcx2", 50), 300+g.pick("gcp2", 50), 400+g.pick("gcq2", 50), 500+g.pick("gcs2", 50))
 	w("\twg.Wait()\n\treturn *out + r.v, x\n}\n")
 	var feats []string
 	for f := range g.feats {
